@@ -511,14 +511,21 @@ func roundMix(seed int64, idx int) *Round {
 					ps = dpPod("d0", 0, c*100+k, []string{"", "pa"}[crng.Intn(2)], []string{"", "never"}[crng.Intn(2)])
 				}
 				if old := r.W.GetPod(NS, ps.Name); old != nil {
-					// delete the old incarnation first (its events race with the new one's scheduling)
+					// delete the old incarnation first (its events race with the new one's scheduling); the death
+					// is recorded for the incarnation that was really deleted, with a tick taken before the call
 					t := r.tick()
-					lmu.Lock()
-					if _, ok := deaths[string(old.UID)]; !ok {
-						deaths[string(old.UID)] = t
-					}
-					lmu.Unlock()
-					r.deletePod(c, ps.Name)
+					r.do(c, "delete-pod", ps.Name, func() string {
+						uid := r.W.DeletePodUID(NS, ps.Name)
+						if uid == "" {
+							return "absent"
+						}
+						lmu.Lock()
+						if _, ok := deaths[uid]; !ok {
+							deaths[uid] = t
+						}
+						lmu.Unlock()
+						return "ok " + uid
+					})
 				}
 				p := r.createPod(ps)
 				if p == nil {
